@@ -425,4 +425,196 @@ theorem intlit_noNewline {s : Str} {v : Int} (h : integerValueToInt s = some v) 
   have := intlit_allLit h '\n' hm
   revert this; decide
 
+/-! ### the decision procedure `Dsp0004.parse` vs the grammar vs pywbem's recogniser -/
+
+theorem isOctDigit_isDec {c : Char} (h : isOctDigit c = true) : isDec c = true := by
+  simp [isOctDigit, isDec] at *; omega
+
+theorem parse_sound {s : Str} {v : Int} (h : parse s = some v) : IsIntegerValue s v := by
+  obtain ⟨sg, hs, hsg⟩ := splitSign_sign s
+  unfold parse at h
+  split at h
+  · rename_i v' hv
+    simp at h; subst h
+    unfold binaryBody at hv
+    split at hv
+    · simp at hv
+    · rename_i b hb
+      split at hv
+      · rename_i hc
+        simp only [Bool.and_eq_true, Bool.or_eq_true, beq_iff_eq, Bool.not_eq_true', List.isEmpty_eq_false_iff] at hc
+        obtain ⟨ys, hys⟩ := List.getLast?_eq_some_iff.mp hb
+        rw [hys, List.dropLast_concat] at hc hv
+        simp at hv; subst hv
+        rw [hsg, natOf_eq_posValue, hs, hys]
+        exact .binary sg ys b hc.1.2 (fun c hc' => List.all_eq_true.mp hc.2 c hc') hc.1.1
+      · simp at hv
+  · split at h
+    · rename_i v' hv
+      simp at h; subst h
+      cases hr : (splitSign s).2 with
+      | nil => rw [hr] at hv; simp [octalBodyD] at hv
+      | cons c ds =>
+        rw [hr] at hv
+        simp only [octalBodyD] at hv
+        split at hv
+        · rename_i hc
+          simp at hv; subst hv
+          obtain ⟨rfl, hne, hall⟩ := hc
+          rw [hsg, natOf_eq_posValue, hs, hr]
+          exact .octal sg ds hne (fun c hc' => List.all_eq_true.mp hall c hc')
+        · simp at hv
+    · split at h
+      · rename_i v' hv
+        simp at h; subst h
+        cases hr : (splitSign s).2 with
+        | nil => rw [hr] at hv; simp [decimalBody] at hv
+        | cons d ds =>
+          rw [hr] at hv
+          simp only [decimalBody] at hv
+          split at hv
+          · rename_i hc
+            simp at hv; subst hv
+            obtain ⟨rfl, rfl⟩ := hc
+            rw [hs, hr]; exact .decimalZero sg
+          · split at hv
+            · rename_i hc
+              simp at hv; subst hv
+              rw [hsg, natOf_eq_posValue, hs, hr]
+              exact .decimal sg d ds hc.1 (fun c hc' => List.all_eq_true.mp hc.2 c hc')
+            · simp at hv
+      · unfold hexBody at h
+        split at h
+        · rename_i z x ds hr
+          split at h
+          · rename_i hc
+            simp at h; subst h
+            obtain ⟨rfl, hx, hne, hall⟩ := hc
+            rw [hsg, natOf_eq_posValue, hs, hr]
+            exact .hex sg x ds hx hne (fun c hc' => List.all_eq_true.mp hall c hc')
+          · simp at h
+        · simp at h
+
+theorem parse_complete {s : Str} {v : Int} (h : IsIntegerValue s v) : parse s = some v := by
+  cases h with
+  | binary sg ds b hne hall hb =>
+    cases ds with
+    | nil => exact absurd rfl hne
+    | cons c t =>
+      have hc := isBin_not_sign (hall c (by simp))
+      unfold parse
+      rw [show sg.chars ++ (c :: t ++ [b]) = sg.chars ++ c :: (t ++ [b]) by simp, splitSign_chars sg c _ hc.1 hc.2]
+      have : binaryBody (decide (sg = .minus)) (c :: (t ++ [b])) = some (sg.apply (posValue 2 (c :: t))) := by
+        unfold binaryBody
+        have e : c :: (t ++ [b]) = (c :: t) ++ [b] := by simp
+        rw [e, List.getLast?_concat, List.dropLast_concat]
+        have hb' : (b == 'b' || b == 'B') = true := by rcases hb with rfl | rfl <;> decide
+        have hall' : (c :: t).all isBin = true := List.all_eq_true.mpr hall
+        simp only [hb', hall', List.isEmpty_cons, Bool.not_false, Bool.and_self, if_true]
+        rw [signed_decide, natOf_eq_posValue]
+      rw [this]
+  | octal sg ds hne hall =>
+    unfold parse
+    rw [splitSign_chars sg '0' ds (by decide) (by decide)]
+    have hb : binaryBody (decide (sg = .minus)) ('0' :: ds) = none := by
+      apply binaryBody_none_of_last
+      intro l hl
+      have hm : l ∈ '0' :: ds := List.mem_of_getLast? hl
+      simp at hm
+      rcases hm with rfl | hm
+      · decide
+      · exact isDec_not_b (isOctDigit_isDec (hall l hm))
+    rw [hb]
+    simp only [octalBodyD, hne, ne_eq, not_false_eq_true, List.all_eq_true.mpr hall, and_self, if_true]
+    rw [signed_decide, natOf_eq_posValue]
+  | decimalZero sg => cases sg <;> decide
+  | decimal sg d ds hd hall =>
+    have hc := isPos_not_sign hd
+    unfold parse
+    rw [splitSign_chars sg d ds hc.1 hc.2]
+    have hb : binaryBody (decide (sg = .minus)) (d :: ds) = none := by
+      apply binaryBody_none_of_last
+      intro l hl
+      have hm : l ∈ d :: ds := List.mem_of_getLast? hl
+      simp at hm
+      rcases hm with rfl | hm
+      · exact isDec_not_b (isPos_isDec hd)
+      · exact isDec_not_b (hall l hm)
+    have hd0 : d ≠ '0' := by intro e; subst e; simp [isPos] at hd
+    rw [hb]
+    simp only [octalBodyD, hd0, false_and, if_false, decimalBody, hd, List.all_eq_true.mpr hall, and_self, if_true]
+    rw [signed_decide, natOf_eq_posValue]
+  | hex sg x ds hx hne hall =>
+    unfold parse
+    rw [splitSign_chars sg '0' (x :: ds) (by decide) (by decide)]
+    have hxb : isBin x = false := by rcases hx with rfl | rfl <;> decide
+    have hxo : isOctDigit x = false := by rcases hx with rfl | rfl <;> decide
+    have hb : binaryBody (decide (sg = .minus)) ('0' :: x :: ds) = none := by
+      unfold binaryBody
+      split
+      · rfl
+      · rename_i b hb
+        obtain ⟨ys, hys⟩ := List.getLast?_eq_some_iff.mp hb
+        rw [hys, List.dropLast_concat]
+        have hxm : x ∈ ys := by
+          cases ys with
+          | nil => simp at hys
+          | cons a ys' =>
+            cases ys' with
+            | nil =>
+              simp at hys
+              exact absurd hys.2.2 (by simp [hne])
+            | cons a' ys'' => simp at hys; simp [hys.2.1]
+        have : ys.all isBin = false := by
+          rw [List.all_eq_false]
+          exact ⟨x, hxm, by simp [hxb]⟩
+        simp [this]
+    rw [hb]
+    have hx' : (x = 'x' ∨ x = 'X') := hx
+    simp only [octalBodyD, List.all_cons, hxo, Bool.false_and, Bool.false_eq_true, and_false, if_false,
+      decimalBody, reduceCtorEq, show isPos '0' = false by decide, false_and, hexBody, hx', hne, ne_eq,
+      not_false_eq_true, List.all_eq_true.mpr hall, and_self, if_true]
+    rw [signed_decide, natOf_eq_posValue]
+
+theorem parse_iff (s : Str) (v : Int) : parse s = some v ↔ IsIntegerValue s v :=
+  ⟨parse_sound, parse_complete⟩
+
+/-- the grammar is unambiguous about the value -/
+theorem isIntegerValue_unique {s : Str} {v w : Int} (h1 : IsIntegerValue s v) (h2 : IsIntegerValue s w) : v = w := by
+  have a := parse_complete h1
+  have b := parse_complete h2
+  rw [a] at b; simpa using b
+
+/-- on the excluded class pywbem's recogniser answers none although the grammar has a value -/
+theorem intlit_none_of_octalZero {s : Str} (h : OctalWithZeroDigit s) :
+    integerValueToInt s = none ∧ ∃ v, parse s = some v := by
+  obtain ⟨sg, ds, rfl, hne, hall, h0⟩ := h
+  constructor
+  · cases hv : integerValueToInt (sg.chars ++ '0' :: ds) with
+    | none => rfl
+    | some v =>
+      exfalso
+      -- the recogniser would have to take one of its four branches; compute them
+      unfold integerValueToInt matchBinary matchOctal matchDecimal matchHex at hv
+      rw [splitSign_chars sg '0' ds (by decide) (by decide)] at hv
+      have hb : binaryBody (decide (sg = .minus)) ('0' :: ds) = none := by
+        apply binaryBody_none_of_last
+        intro l hl
+        have hm : l ∈ '0' :: ds := List.mem_of_getLast? hl
+        simp at hm
+        rcases hm with rfl | hm
+        · decide
+        · exact isDec_not_b (isOctDigit_isDec (hall l hm))
+      have ho : ds.all isOct = false := by
+        rw [List.all_eq_false]; exact ⟨'0', h0, by decide⟩
+      cases ds with
+      | nil => exact hne rfl
+      | cons d t =>
+        have hd : isOctDigit d = true := hall d (by simp)
+        have hdx : ¬ (d = 'x' ∨ d = 'X') := by
+          rintro (rfl | rfl) <;> simp [isOctDigit] at hd
+        rw [hb] at hv
+        simp [octalBody, ho, decimalBody, show isPos '0' = false by decide, hexBody, hdx] at hv
+  · exact ⟨_, parse_complete (.octal sg ds hne hall)⟩
+
 end Proofs.IntLit
